@@ -874,4 +874,12 @@ theorem run_not_run (s : State) (ops : List Op) (h : s.bst ≠ .run) : (run s op
   | cons op rest ih => exact ih _ (step_not_run s op h)
 
 
+/-- `destroy` answers `destroyed` only when it really destroyed the frame -/
+theorem destroyed_dead (s : State) (hd : (stepDestroy s).2 = .destroyed) : (stepDestroy s).1.alive = false := by
+  unfold stepDestroy at hd ⊢
+  by_cases h1 : s.alive = true <;> by_cases h2 : inSync s = true <;> by_cases h3 : inflight s = true <;>
+    simp only [h1, h2, h3] at hd ⊢ <;> try (simp at hd; done)
+  cases hb : s.bst <;> simp only [hb] at hd ⊢ <;> first | rfl | (simp at hd; done)
+
+
 end Cocls.Gen
